@@ -32,7 +32,8 @@ from pyvc import calc
 from pyvc import backends as B
 from pyvc import native
 from pyvc.repo import Repo
-from pyvc.symexec import Executor, State, Obligation, CalleeContract
+from pyvc.symexec import (Executor, State, Obligation, CalleeContract,
+                          Native)
 from pyvc.sym import SymObject, VCError
 
 MOD = 'pysph.base.kernels'
@@ -73,6 +74,7 @@ def tasks(tier):
             out.append('k:%s:%d' % (cls, d))
             out.append('norm:%s:%d' % (cls, d))
     out.append('twin:all')
+    out.append('compiled')
     out.append('canary')
     return out
 
@@ -301,6 +303,8 @@ def run_task(task, ctx):
     if kind == 'norm':
         _, cls, d = task.split(':')
         return task_norm(repo, m, cls, int(d), ctx)
+    if kind == 'compiled':
+        return task_compiled(repo, m, ctx)
     if kind == 'twin':
         from contracts import C08_twin
         return C08_twin.run(repo, m, ctx)
@@ -592,3 +596,84 @@ def task_norm(repo, m, cls, dim, ctx):
                     extra=dict(backends=['z3']))
     rec = ctx.prove('%s.norm' % T, [ob], replay=rp, info=info or why)
     rec['backends'] = {'sympy': 1}
+
+
+# ------------------------------------------------------ get_compiled_kernel
+def task_compiled(repo, m, ctx):
+    """get_compiled_kernel(k): the compiled class and wrapper named after
+    k's class, constructed from THIS object's attributes, on every call
+    (two kernels of one class but different dim get two wrappers)."""
+    fn = m.functions['get_compiled_kernel']
+    W = m.path
+    made = []
+
+    def ck_getattr(e, s_, a, k, n):
+        obj, name = a[0], a[1]
+        if getattr(obj, 'name', '').endswith('c_kernels'):
+            return Native(lambda e2, s2, a2, k2, n2, name=name: made.append(
+                (name, a2, dict(k2))) or ('built', name, len(made) - 1))
+        if isinstance(obj, SymObject):
+            return obj.attrs[name]
+        raise VCError('getattr')
+
+    def kern(dim):
+        return SymObject(None, {
+            '__class__': SymObject(None, {'__name__': 'CubicSpline'}, 'c'),
+            '__dict__': dict(dim=dim, radius_scale=2.0, fac=z3.Real(
+                'fac%d' % dim))}, 'kernel%d' % dim)
+    ex = Executor(repo, m, qualname='get_compiled_kernel', merge=False,
+                  externals={'getattr': ck_getattr})
+    res = []
+    try:
+        for d in (1, 3):
+            outs = ex.exec_function(fn, dict(kernel=kern(d)))
+            res.append(outs[0].value if len(outs) == 1 else None)
+    except VCError as e:
+        ctx.outside('compiled.get_compiled_kernel', str(e))
+        return
+    ctx.function(m, fn, 'get_compiled_kernel', ex.dropped)
+    ok = len(made) == 4
+    why = []
+    if ok:
+        for j, d in enumerate((1, 3)):
+            c_, w_ = made[2 * j], made[2 * j + 1]
+            good = c_[0] == 'CubicSpline' and c_[2].get('dim') == d and \
+                w_[0] == 'CubicSplineWrapper' and w_[1] and \
+                w_[1][0] == ('built', 'CubicSpline', 2 * j) and \
+                res[j] == ('built', 'CubicSplineWrapper', 2 * j + 1)
+            if not good:
+                ok = False
+                why.append('call %d: %r' % (j, (c_[0], c_[2], w_[0])))
+    else:
+        why.append('constructions: %r' % [(x[0], x[2]) for x in made])
+    ctx.prove('compiled.get_compiled_kernel_builds_from_this_object', [
+        Obligation('compiled', [], z3.BoolVal(bool(ok)), W,
+                   extra=dict(why=why))], replay=replay_compiled)
+
+
+def replay_compiled(model, ob):
+    script = r"""
+import json, sys, importlib.util
+d = json.load(sys.stdin)
+spec = importlib.util.spec_from_file_location('kernels_ut', d['root'] + '/pysph/base/kernels.py')
+mod = importlib.util.module_from_spec(spec); spec.loader.exec_module(mod)
+bad = None
+for cls in ('CubicSpline', 'Gaussian', 'WendlandQuintic'):
+    for dim in (1, 2, 3):
+        try:
+            k = getattr(mod, cls)(dim=dim)
+        except Exception:
+            continue
+        w = mod.get_compiled_kernel(k)
+        a = k.kernel([0.3, 0.0, 0.0], 0.3, 0.4)
+        b = w.kernel(0.3, 0.0, 0.0, 0.0, 0.0, 0.0, 0.4)
+        if abs(a - b) > 1e-12 * max(1.0, abs(a)) and bad is None:
+            bad = dict(kernel=cls, dim=dim, python=a, compiled=b)
+print(json.dumps(dict(bad=bad)))
+"""
+    from pyvc.repo import REPO_ROOT
+    try:
+        r = native.run_venv(script, dict(root=REPO_ROOT))
+    except Exception as e:
+        return dict(reproduced=False, note=str(e)[-300:])
+    return dict(reproduced=bool(r['bad']), **(r['bad'] or {}))
